@@ -50,6 +50,11 @@ func (r *modelRun) curNode() string {
 
 func (r *modelRun) request(input []byte, fresh bool) *reqObs {
 	ncalls := len(r.s.CallLog)
+	var movesBefore uint32
+	haveBefore := false
+	if r.s.St != nil {
+		movesBefore, haveBefore = r.s.St.Moves, true
+	}
 	st := r.s.Request(input, fresh)
 	o := &reqObs{st: st}
 	if st.Panic != "" {
@@ -85,6 +90,14 @@ func (r *modelRun) request(input []byte, fresh bool) *reqObs {
 		o.idxAgree = true
 	}
 	o.movesAgree = strings.Join(st.Moves, ",") == strings.Join(o.exp.Moves, ",")
+	if !o.movesAgree && haveBefore && r.s.St != nil && !o.exp.GracefulEnd {
+		// the code-fetch sequence is an observation aid, not part of any property: an
+		// implementation that fetches code differently (caching, prefetching) is still right if
+		// it made the same NUMBER of moves and ended at the same position
+		if r.s.St.Moves-movesBefore == uint32(len(o.exp.Moves)) && o.pathAgree && o.idxAgree {
+			o.movesAgree = true
+		}
+	}
 	var ac, mc []string
 	for _, c := range r.s.CallLog[ncalls:] {
 		ac = append(ac, fmt.Sprintf("%s#%d(%q)", c.Sym, c.K, c.Input))
